@@ -19,6 +19,8 @@ import XalanModel.C04.IndentTreeProofs
 import XalanModel.C04.Transcoder
 import XalanModel.C04.RawMarker
 import XalanModel.C04.StreamProofs
+import XalanModel.C04.OtherBulkProofs
+import XalanModel.C04.BulkCheckProofs
 /-!
 # C04 — XML output is well-formed and parses back to exactly the result tree
 
@@ -183,6 +185,53 @@ theorem probe_shared_converter_counterexample :
     (iso2022.runOps false .ascii [.chunk [0x30A2], .probe 98, .chunk [98]]).2 = [27, 36, 66, 48, 34, 98] ∧
     (iso2022.runOps true .ascii [.chunk [0x30A2], .probe 98, .chunk [98]]).2 = [27, 36, 66, 48, 34, 27, 40, 66, 98] ∧
     (iso2022.run .ascii [0x30A2, 98]).2 = [27, 36, 66, 48, 34, 27, 40, 66, 98] := by decide
+
+/-! ## the bulk write of the transcoding writer (raw text, DOCTYPE strings) -/
+
+/-- **other_bulk_pair_aware.** `XalanOtherEncodingWriter::write(const XalanDOMChar*, n)` going through the positional
+write (the repaired form; `otherBulkPairAware`): for every encoding whose predicate covers ASCII and every sequence of
+Unicode scalar values, the UTF-16 form is written without error as — character by character — the character itself
+when the encoding has it, one numeric character reference for it otherwise; a supplementary character is one character. -/
+theorem other_bulk_pair_aware (e : Enc) (hk : e.kind = .other) (ha : AsciiOk e) (cs : List Nat) (hs : ∀ c ∈ cs, Spec.IsScalar c) :
+    ∃ it, otherBulkLoop e (Spec.utf16Encode cs) false = .ok it ∧ unitsOf it = Spec.encodeOut .other (rawOther e cs) :=
+  otherBulkLoop_enc e hk ha cs hs
+
+/-- **other_bulk_unitwise_counterexample.** The loop as written before the repair (`write(theChars[i])` for every UTF-16
+unit): U+1F600 under US-ASCII comes out as `&#55357;&#56832;` — two references to surrogate code points, which the
+reader (like every XML parser) rejects — where the pair-aware loop writes `&#128512;`, which reads back as U+1F600. -/
+theorem other_bulk_unitwise_counterexample :
+    unitsOf (otherBulkUnits asciiEnc [0xD83D, 0xDE00]) = [38, 35, 53, 53, 51, 53, 55, 59, 38, 35, 53, 54, 56, 51, 50, 59] ∧
+    Spec.readAll .v10 false (unitsOf (otherBulkUnits asciiEnc [0xD83D, 0xDE00])) = none ∧
+    (otherBulkLoop asciiEnc [0xD83D, 0xDE00] false).toOption.map unitsOf = some [38, 35, 49, 50, 56, 53, 49, 50, 59] ∧
+    Spec.readAll .v10 false [38, 35, 49, 50, 56, 53, 49, 50, 59] = some [0x1F600] := by
+  decide +kernel
+
+/-- **bulk_output_implies_wellformed** (the repair of `proposed/C04-r8`: `throwIfNotCharacters` in front of the bulk
+writes).  With the check present, for every writer and *every* code-unit string: if a name / PI target (`wName`) or
+unescaped text (`wRaw`) is written at all, the string was well-formed UTF-16 and contained none of U+0000, U+FFFE,
+U+FFFF — the same guarantee `content_output_implies_wellformed` gives for the positional paths. -/
+theorem bulk_output_implies_wellformed (e : Enc) (hf : e.fx.bulkCheck = true) (us : List Nat) (items : List Item)
+    (h : wName e us = .ok items ∨ wRaw e us = .ok items) :
+    wf16 us = true ∧ ∀ c ∈ us, c ≠ 0 ∧ c < 0xFFFE :=
+  bulk_output_wf e hf us items h
+
+/-- the check never refuses the UTF-16 form of XML characters (so the round-trip theorems hold with and without it) -/
+theorem bulk_check_accepts_legal (ver : Ver) (e : Enc) (n : List Nat) (hn : ∀ c ∈ n, Spec.legalChar ver c = true) :
+    checkBulk e (Spec.utf16Encode n) = .ok () :=
+  checkBulk_legal ver e n hn
+
+/-- **bulk_unchecked_counterexample** (C08's `C08-bulk-path-non-characters`): without the check a lone low surrogate is
+written as an element name by the UTF-8 and the UTF-16 writer, U+FFFF as unescaped text; with it they are errors and a
+proper pair still passes. -/
+theorem bulk_unchecked_counterexample :
+    okUnits (wName ⟨.utf16, fun _ => true, Fixes.asWritten⟩ [97, 0xDC00]) = some [97, 0xDC00] ∧
+    okUnits (wName ⟨.utf8, fun _ => true, Fixes.asWritten⟩ [0xDC00]) = some [0xED, 0xB0, 0x80] ∧
+    okUnits (wRaw ⟨.utf16, fun _ => true, Fixes.asWritten⟩ [0xFFFF]) = some [0xFFFF] ∧
+    errOf (wName ⟨.utf16, fun _ => true, Fixes.all⟩ [97, 0xDC00]) = some .surrogate ∧
+    errOf (wName ⟨.utf8, fun _ => true, Fixes.all⟩ [0xD800]) = some .surrogate ∧
+    errOf (wRaw ⟨.utf16, fun _ => true, Fixes.all⟩ [0xFFFF]) = some .forbidden ∧
+    okUnits (wName ⟨.utf16, fun _ => true, Fixes.all⟩ [0xD835, 0xDCB3]) = some [0xD835, 0xDCB3] := by
+  decide
 
 /-! ## the raw-text marker -/
 
@@ -654,7 +703,8 @@ theorem document_roundtrip_prolog (c : Cfg) (H : DocHyp c)
       Spec.decodeOut c.enc.kind (unitsOf items) = some out ∧
       Spec.readDocument c.ver out = some (Spec.norm (.elem n a kids)) := by
   obtain ⟨h, hh1, hh2, hhA⟩ := header_enc c H.ha hE hS
-  obtain ⟨d, hd1, hd2, hdA⟩ := doctype_enc' c H.ha hP hY n hN
+  obtain ⟨d, hd1, hd2, hdA⟩ := doctype_enc' c H.ha hP hY n hN (fun x hx => by
+    simp only [TreeOk] at hok1; exact (hok1.1 x hx).1)
   obtain ⟨items, body, h1, h2, h3⟩ := node_enc c H (.elem n a kids) hok1
   obtain ⟨rest, hb⟩ := absNode_elem_shape _ _ _ n a kids body h2
   have hsc := node_sc c.ver c.enc (spaceBeforeClose c) _ hok1 body h2
